@@ -8,7 +8,10 @@ TraceBuffer.tla judges result, len()/free() and the exact contents of data() (ru
 step.  Through the public API, request sizes are swept across the 127/128, 255/256 and capacity boundaries at each
 nesting level (number of OIDs x community / user-name length; v1, v2c, v3 plain/auth/priv): TraceSession.tla
 requires that a refused request (SnmpEncodeError) put nothing on the wire and really does not fit (size arithmetic
-of SNMP.tla), that every sent request decodes to exactly the call, and that the session still works afterwards."""
+of SNMP.tla), that every sent request decodes to exactly the call, and that the session still works afterwards.
+Privacy sessions reuse a private buffer: the padding behind each encrypted scoped PDU must be written for that
+message, never a left-over of earlier ciphertext or of a decrypted reply (TraceSession.tla PadOK; design level:
+Privacy.tla PadWrittenForThisMessage, with DEV_PadOnce as the counterexample-producing deviation)."""
 import json, random
 from vlib import env, tlc, trace, graph, rs, rawdrv, scripts, sesscheck, agent as ag
 from vlib.report import Check
@@ -194,6 +197,58 @@ def size_sweep(chk, thorough, rng, cap):
     chk.sample(dict(kind="size-sweep", largest_sent=sizes[-5:], around_128=[x for x in sizes if 120 <= x <= 135], around_256=[x for x in sizes if 250 <= x <= 262]))
 
 
+def pad_sessions(rec, thorough):
+    """privacy sessions whose private buffer is used over and over: requests of every length residue modulo the cipher block,
+    some answered with encrypted replies that carry recognisable content.  TraceSession.tla (PadOK) requires the padding behind
+    the scoped PDU to be written for each message - never a left-over of earlier ciphertext or of a decrypted reply."""
+    std = scripts.std_cfgs()
+    runs = []
+    for cn in ("v3-md5-des", "v3-sha1-aes", "v3-sha1-des", "v3-md5-aes"):
+        cfg = std[cn]
+        for mode in (0, 1, 2):                      # reply to every request / to every third / to none
+            a = rec.n
+            sess = rawdrv.RawSession(rec, cfg)
+            agent = ag.Agent(engine=cfg.engine)
+            for k in range(20 if not thorough else 48):
+                oid = "1.3.6.1.4.1" + "".join(".%d" % ((j * 11 + k) % 120 + 1) for j in range(k % 17))
+                w, exc = sess.send("get", [oid])
+                if w is None:
+                    continue
+                if mode == 0 or (mode == 1 and k % 3 == 0):
+                    req = ag.Request(cfg, w)
+                    if not req.broken and req.names:
+                        secret = b"enable-secret=%d-TOPSECRET-" % k + bytes(range(65, 65 + (k * 5) % 23))
+                        sess.inject(agent.reply(cfg, req, [(bytes(req.names[0]), ("octets", secret))]))
+                    sess.recv("get")
+            sess.close()
+            runs.append((a, rec.n, dict(kind="pad", cfg=cn, mode=mode)))
+    return runs
+
+
+def pad_part(chk, thorough):
+    rec = trace.Recorder("c17pad")
+    runs = pad_sessions(rec, thorough)
+    rec.close()
+    v = trace.validate_parallel("TraceSession.tla", "TraceSession.cfg", rec.events, [(a, b) for a, b, _ in runs], k=6, name="c17pad")
+    for i, r in enumerate(v["results"]):
+        chk.add_tlc(r, "TraceSession(c17pad)#%d" % i)
+    chk.traces += len(runs)
+    for a, b, info in runs:
+        for e in rec.events[a:b]:
+            if e["ev"] == "Send" and e.get("wire"):
+                chk.case(("pad", info["cfg"], info["mode"], len(e["wire"])))
+    ri = 0
+    for idx in v["fails"]:
+        while runs[ri][1] <= idx:
+            ri += 1
+        a, b, info = runs[ri]
+        ev = rec.events[idx]
+        nth = sum(1 for x in rec.events[a:idx + 1] if x["ev"] == ev["ev"])
+        chk.violation(dict(kind="pad", cipher="des" if "des" in info["cfg"] else "aes", ev=ev["ev"], got=ev.get("exc") or "sent"),
+                      "%s (replies: %s): %s #%d %s" % (info["cfg"], ["all", "every third", "none"][info["mode"]], ev["ev"], nth, ev.get("exc") or ""),
+                      dict(kind="pad", info=info, event_index=idx - a))
+
+
 def run(tier):
     chk = Check("C17", tier)
     thorough = tier == "thorough"
@@ -203,6 +258,16 @@ def run(tier):
                 "boundaries on v1/v2c/v3; distinct = (source position, op, argument) / (config, name length, OID count, arcs); all cases non-trivial")
     cap = buffer_part(chk, thorough, rng)
     size_sweep(chk, thorough, rng, cap)
+    from checks import c11
+    for cipher in ("des", "aes"):
+        res = c11.mc_privacy(cipher, 5 if not thorough else 6)
+        tlc.require_ok(res, "MC_Privacy " + cipher)
+        chk.add_tlc(res, "MC_Privacy %s (PadWrittenForThisMessage, NoSpuriousRefusal)" % cipher)
+    dres = c11.mc_privacy("aes", 3, dev_pad=True)
+    if dres.ok or "PadWrittenForThisMessage" not in (dres.violation or ""):
+        raise ToolError("DEV_PadOnce did not produce the expected counterexample: %s" % dres.violation)
+    chk.extra["deviation_counterexample"] = "DEV_PadOnce=TRUE violates PadWrittenForThisMessage"
+    pad_part(chk, thorough)
     chk.assumptions += ["out-of-bounds access without a functional symptom (no change in result/len/contents) is not observable here (DESIGN.md 6)"]
     return chk.finish()
 
@@ -224,6 +289,10 @@ def replay(path):
                           bookmark=st.get("bookmark", 0) if st.get("bookmark", 0) < 2 ** 31 else -1))
         cfgp = sesscheck.write_cfg("SPECIFICATION TSpec\nCONSTANTS MAX = %d\nPOSTCONDITION TraceAccepted\nCHECK_DEADLOCK FALSE\n" % cap, "TraceBuffer.cfg")
         v = trace.validate("TraceBuffer.tla", cfgp, rec.close())
+    elif r.get("kind") == "pad":
+        rec = trace.Recorder("c17-replay")
+        pad_sessions(rec, False)
+        v = trace.validate("TraceSession.tla", "TraceSession.cfg", rec.close())
     else:
         info = r["info"]
         std = scripts.std_cfgs()
